@@ -323,13 +323,11 @@ class Part(object):
             divs_per_beat = self.inv_beat_map(
                 1 + self.beat_map(0)
             )  # find the divs per beat in the first measure
-            if (
-                measures[0][1] - measures[0][0]
-                < self.time_signature_map(0)[0] * divs_per_beat
-            ):
-                measures[0][0] = (
-                    measures[0][1] - self.time_signature_map(0)[0] * divs_per_beat
-                )
+            # number of beats in a full first bar, in the unit of the beat map
+            first_ts = self.time_signature_map(0)
+            beats_per_bar = first_ts[2] if self._use_musical_beat else first_ts[0]
+            if measures[0][1] - measures[0][0] < beats_per_bar * divs_per_beat:
+                measures[0][0] = measures[0][1] - beats_per_bar * divs_per_beat
 
         if len(measures) == 0:  # no measures in the piece
             # default only one measure spanning the entire timeline
@@ -383,13 +381,11 @@ class Part(object):
             divs_per_beat = self.inv_beat_map(
                 1 + self.beat_map(0)
             )  # find the divs per beat in the first measure
-            if (
-                measures[0][1] - measures[0][0]
-                < self.time_signature_map(0)[0] * divs_per_beat
-            ):
-                measures[0][0] = (
-                    measures[0][1] - self.time_signature_map(0)[0] * divs_per_beat
-                )
+            # number of beats in a full first bar, in the unit of the beat map
+            first_ts = self.time_signature_map(0)
+            beats_per_bar = first_ts[2] if self._use_musical_beat else first_ts[0]
+            if measures[0][1] - measures[0][0] < beats_per_bar * divs_per_beat:
+                measures[0][0] = measures[0][1] - beats_per_bar * divs_per_beat
 
         if len(measures) == 0:  # no measures in the piece
             # default only one measure spanning the entire timeline
